@@ -1,6 +1,7 @@
 """Configuration of ./check C04 (see pylib/props.py)."""
 CFG = dict(
-        coq=["props/C04.vo"],
+        coq=["props/C04.vo", "props/Compose.vo"],
+        compose=['Compose_ingest_table_wf', 'Compose_wf_tables', 'Compose_sorter_table', 'Compose_ingest_diff'],
         tie=["gen/Tie_C04.vo", "gen/Tie_Code_RowAddr.vo", "gen/Tie_Code_Overlap.vo"],
         model_vo=["model/Diff.vo", "model/DiffSpec.vo", "model/DiffHashed.vo"],
         extract="Ex_C04",
